@@ -49,7 +49,7 @@ structure Cfg where
   ownStream : Bool
 deriving DecidableEq, Repr
 
-open OnosVerif.Generated in
+open OnosVerif.Generated.StoreFacts in
 /-- the structure of `Watch` in each store, from the current sources. -/
 def codeCfg : Kind → Cfg
   | .tx2 =>
